@@ -9,7 +9,6 @@ NA = {
  'C05': 'Exact inverse arithmetic over int64 with overflow avoidance; the only structural clause (one overload per tag) is carried under C04 and would not catch realistic mutants.',
  'C06': 'Monotonicity of a composition of value computations over pairs of inputs; not decidable from code shape.',
  'C07': 'format-then-parse identity over instants x formats x zones: value semantics of two 300-line string routines plus libc.',
- 'C10': 'Totality/saturation at the int64 ends rests on relational invariants (a transition within 2^63 s of every civil second) beyond interval analysis; its observation point is a sanitizer build, i.e. execution.',
  'C18': 'Floor-vs-truncate of template arithmetic per ratio is value semantics; the one structural clause (two-sided guard before the narrowing cast in join_seconds) is already exercised by the suite.',
 }
 checks, na = [], []
